@@ -21,7 +21,7 @@ func c06Check(c stage.Cfg) func(o *obs.Obs) string {
 	switch c.Stage {
 	case "join":
 		producers = len(c.Inputs)
-	case "emit", "unfold", "seq":
+	case "emit", "unfold", "seq", "seqtake":
 		producers = 0
 	}
 	return func(o *obs.Obs) string {
@@ -117,6 +117,7 @@ func c06Scenarios(tier string) []e1lib.Scenario {
 		maxK = 3
 	}
 	var out []e1lib.Scenario
+	devMode := -1 // >= 0: deviation bound for the long scenarios
 	add := func(c stage.Cfg) {
 		b := -1
 		if c.K >= 3 && (c.Stage == "partition" || c.Stage == "join" || c.Stage == "throttle") {
@@ -129,6 +130,10 @@ func c06Scenarios(tier string) []e1lib.Scenario {
 		// reader is ready, so this is a liveness scenario as well (explored under the cancel-priority restriction)
 		live = live || (c.Stage == "emit" && c.FailFrom > 0)
 		sc := e1lib.Scenario{Name: stageName(c), Root: func() { stage.Scenario(c) }, Check: c06Check(c), Bound: b, Sample: c, Live: live}
+		if devMode >= 0 {
+			sc.Bound, sc.Deviations = devMode, true
+			sc.Name += fmt.Sprintf(" deviations<=%d", devMode)
+		}
 		out = append(out, sc)
 	}
 	stops := func(n int) []int {
@@ -266,6 +271,21 @@ func c06Scenarios(tier string) []e1lib.Scenario {
 			}
 		}
 	}
+	// Take over Seq with argument lists longer than any plausible internal buffer
+	for _, k := range []int{3, 130, 1100, 2100} {
+		add(stage.Cfg{Stage: "seqtake", K: k, N: 2, Stop: -1, Stop2: -1})
+	}
+	// more failures than any plausible fixed number the logger or the error buffer could be sized for
+	devMode = 1
+	for _, k := range []int{40, 80, 140} {
+		all := 0
+		for x := 1; x <= k && x < 62; x++ {
+			all |= 1 << x
+		}
+		add(stage.Cfg{Stage: "map", Mode: "try", K: k, Cap: 0, Mask: all, FailFrom: 62, ErrRd: "stderr", Stop: -1, Stop2: -1})
+		add(stage.Cfg{Stage: "map", Mode: "try", K: k, Cap: 2, Mask: all, FailFrom: 62, ErrRd: "reader", Stop: -1, Stop2: -1})
+	}
+	devMode = -1
 	for cp := 0; cp <= 1; cp++ {
 		for _, rd := range []string{"reader", "none"} {
 			for _, ff := range []int{1, 2} {
